@@ -13,7 +13,8 @@ LEVEL = "exploration"
 SCENARIOS = {"nofault": 2, "wire-faults": 3, "wkc-faults": 2, "two-groups": 2}
 TIERS = {"quick": {"runs": 2400, "chunk": 10}, "thorough": {"runs": 50000000, "wall_s": 600, "chunk": 50, "recheck": 16}}
 RULE = ("one run = FastEtherCat + one (in 'two-groups': two, on disjoint terminals) real FastSyncGroup with a tape-generated layout (1-4 "
-        "terminals, FMMU and direct writers/readers, 1-3 generated devices) on the simulated "
+        "terminals, FMMU and direct writers/readers, a quarter of them Aerotech-style with "
+        "their separate one-byte datagrams, 1-3 generated devices) on the simulated "
         "bus; the real dispatcher and group byte code run in the eBPF interpreter on every "
         "returning frame; the wire loses/delays frames, terminals return correct or wrong "
         "working counters, the run loop switches wkc_errors between 0 (outputs disabled) "
